@@ -56,7 +56,7 @@ package keeper
 
 // The rules of a pool as a list: exactly the stored rules of that pool, each once (iterator loop, A-ITER).
 //@ func Keeper.GetRewardRules
-//@   property C05, C06
+//@   property C05, C06, C13
 //@   returns rules
 //@   requires rulesWF
 //@   uses ridxRange(get(pools, poolId).Rules, "")
@@ -69,6 +69,7 @@ package keeper
 //@   ensures complete: forall d:Str {has(ruleF, poolId, d)} :: has(ruleF, poolId, d) ==> 0 <= uf("rule_pos", ruleF, poolId, d) && uf("rule_pos", ruleF, poolId, d) < len(rules)
 //@                                       && rules[uf("rule_pos", ruleF, poolId, d)].Reward == d
 //@   ensures inverse:  forall j:Int :: 0 <= j && j < len(rules) ==> uf("rule_pos", ruleF, poolId, rules[j].Reward) == j
+//@   nopanic C13
 //@ end
 
 // ---------------------------------------------------------------------------------------------
@@ -85,7 +86,7 @@ package keeper
 //@ define rulesOK = forall p:Str :: forall d:Str :: has(ruleF, p, d) ==> ruleOK(get(ruleF, p, d))
 
 //@ func Keeper.updatePool
-//@   property C05, C06
+//@   property C05, C06, C13
 //@   returns np, collected, err
 //@   requires rulesWF && rulesOK
 //@   requires height >= 0 && pool.LastHeightDistrRewards >= 0 && pool.TotalLptLocked.Amount >= 0 && pool.TotalLptLocked.Amount + amount >= 0
@@ -143,6 +144,7 @@ package keeper
 //@   ensures keeps_rules: rulesWF && rulesOK
 //@   ensures pools_frame: forall p:Str :: p != pool.Id ==> has(pools, p) == old(has(pools, p)) && POOL(p) == old(POOL(p))
 //@   ensures pool_kept:  err != nil ==> pools == old(pools)
+//@   nopanic C13
 // it cannot fail when the height has not gone back, the pool has a rule, every budget covers what is released now and
 // the escrow account holds it
 //@   ensures succeeds: old(height >= pool.LastHeightDistrRewards && has(ruleF, pool.Id, ufstr("some_reward", pool.Id))
@@ -421,4 +423,37 @@ package keeper
 //@                        && (POOL(pool.Id).EndHeight == pool.EndHeight || POOL(pool.Id).EndHeight == height)
 //@   ensures queue_all:  old(activeInv) ==> activeInv && (forall h:Int :: !has(active, h, pool.Id))
 //@   by queue_all: ens:dequeued, ens:pools_frame, ens:pool_kept, req
+//@   nopanic C13
+//@ end
+
+// every stored pool record is sane and its creator is an ordinary account
+//@ define poolsWF = forall p:Str :: has(pools, p) ==> POOL(p).Id == p && poolOK(POOL(p)) && bechok(POOL(p).Creator)
+//@        && addr(POOL(p).Creator) != MOD && addr(POOL(p).Creator) != COLLECTOR && !blocked[addr(POOL(p).Creator)]
+// a queue entry stores the id of the pool it is queued for
+//@ define activeWF = forall h:Int :: forall p:Str :: has(active, h, p) ==> get(active, h, p) == p
+
+// DestroyPool: only the creator of an editable pool that has not ended; then exactly Refund.
+//@ func Keeper.DestroyPool
+//@   property C06, C13
+//@   returns refund, err
+//@   requires rulesWF && rulesOK && height >= 0 && poolsWF
+//@   let pl = POOL(poolId)
+//@   modifies active, ruleF, pools, bal
+//@   ensures authorized: err == nil ==> old(has(pools, poolId)) && bech(creator) == pl.Creator && pl.Editable
+//@                         && (height < pl.EndHeight || (height == pl.EndHeight && old(has(active, pl.EndHeight, poolId))))
+//@   ensures refunded:  err == nil ==> (forall d:Str :: amt(refund, d) == leftD(pl, d))
+//@   ensures paid_to_creator: err == nil ==> (forall d:Str :: bal(creator, d) == old(bal(creator, d)) + leftD(pl, d))
+//@   ensures once:      old(activeInv) && err == nil ==> activeInv && (forall h:Int :: !has(active, h, poolId))
+//@   ensures escrow:    err == nil && old(escrowInv) ==> escrowInv
+//@ end
+
+// The expiry iteration (helper with callback; inlined into EndBlocker together with the closure).
+//@ func Keeper.IteratorExpiredPool
+//@   inline
+//@   invariant #1 pos:    0 <= it_idx && it_idx <= it_n
+//@   invariant #1 wf:     rulesWF && rulesOK && poolsWF && activeInv && activeWF
+//@   invariant #1 todo:   forall j:Int :: it_idx <= j && j < it_n ==> has(active, height, it_seq[j].k1)
+//@   invariant #1 done:   forall j:Int :: 0 <= j && j < it_idx ==> !has(active, height, it_seq[j].k1)
+//@   invariant #1 others: forall p:Str :: !old(has(active, height, p)) ==> !has(active, height, p)
+//@   invariant #1 qframe: forall q:Int :: forall p:Str :: q != height ==> has(active, q, p) == old(has(active, q, p))
 //@ end
